@@ -1444,9 +1444,9 @@ def ionq_extra_validate(ctx, TI):
             ctx.count("validate.ionq", "raised:" + type(e).__name__)
             return
         try:
-            v = ionq_unitary(n, out.gates)
+            v = mixed_unitary(n, out.gates)  # a gate that was passed through is judged as itself, not skipped
         except KeyError:
-            ctx.count("validate.ionq", "non-native-gate-in-output")
+            ctx.count("validate.ionq", "oracle-unknown-gate")
             return
         d = offdiag(u, v)
         ctx.count("validate.ionq", "ok" if d <= tol else "MISMATCH")
@@ -1516,6 +1516,164 @@ def ionq_extra_validate(ctx, TI):
         n = rng.randint(1, 3)
         c = random_real_circuit(rng, n, rng.randint(1, 5), kinds, angle_forms=True)
         run("IonQSetTranspiler", TI.IonQSetTranspiler, c, 1e-5, lambda c, v=None, tol=None: "transpile:IonQSetTranspiler")
+
+
+# ---- presets / composite pipelines on circuits containing gates their stages cannot express -----------------------------------------
+def mixed_unitary(n, gs):
+    """unitary of a circuit that may mix the standard vocabulary, Quantinuum natives (oracle/dense.py) and IonQ natives;
+    Measurement gates are skipped"""
+    import numpy as np
+
+    from oracle import dense
+
+    u = np.eye(1 << n, dtype=complex)
+    for g in gs:
+        if g.name == "Measurement":
+            continue
+        u = (ionq_unitary(n, [g]) if g.name in ("GPi", "GPi2", "MS") else dense.gate_unitary(n, g)) @ u
+    return u
+
+
+def preset_unexpressible_validate(ctx):
+    """Every preset / composite pipeline of the three packages, judged END TO END, on circuits that contain a gate some
+    stage cannot express: UnitaryMatrix on 3 or 4 qubits ("not decomposed"), the native gates of another backend, terminal
+    Measurement gates.  The preset must raise, or return a circuit in the documented relation to the input (same unitary
+    up to phase; outcome statistics for the IonQ preset) in which every measurement is still present and still terminal –
+    a stage that skips what it does not know must not turn into a silently dropped gate."""
+    import numpy as np
+
+    import quri_parts.circuit.transpile as T
+    import quri_parts.ionq.circuit.transpile as TI
+    import quri_parts.quantinuum.circuit.transpile as TQ
+    from oracle import dense
+    from quri_parts.circuit import QuantumCircuit, gates
+    from quri_parts.ionq.circuit import XX, GPi, GPi2
+    from quri_parts.quantinuum.circuit import RZZ, ZZ, U1q
+
+    rng = ctx.rng
+    std = qp.ONE_Q + ["RX", "RY", "RZ", "U1", "U2", "U3", "CNOT", "CZ", "SWAP", "TOFFOLI", "Pauli", "PauliRotation", "UM1", "UM2"]
+    rz_like = ["RZ", "U1", "Z", "S", "Sdag", "T", "Tdag", "CNOT", "CZ", "H", "X"]  # keeps the Quantinuum preset away from its recorded general-branch finding
+    presets = [
+        ("RZSetTranspiler", T.RZSetTranspiler, "unitary", std), ("RotationSetTranspiler", T.RotationSetTranspiler, "unitary", std),
+        ("CliffordRZSetTranspiler", T.CliffordRZSetTranspiler, "unitary", std), ("STARSetTranspiler", T.STARSetTranspiler, "unitary", std),
+        ("GateSetConversionTranspiler[H,S,T,RZ,CZ]", lambda: T.GateSetConversionTranspiler(["H", "S", "T", "RZ", "CZ"]), "unitary", std),
+        ("GateSetConversionTranspiler[RX,RZ,CNOT;validation=False]", lambda: T.GateSetConversionTranspiler(["RX", "RZ", "CNOT"], validation=False), "unitary", std),
+        ("QuantinuumSetTranspiler", TQ.QuantinuumSetTranspiler, "unitary", rz_like),
+        ("IonQSetTranspiler", TI.IonQSetTranspiler, "ionq", std), ("IonQSetTranspiler", TI.IonQSetTranspiler, "ionq", std), ("IonQSetTranspiler", TI.IonQSetTranspiler, "ionq", std),
+        ("Sequential[RotationSet,CNOT2RXRYXX]", lambda: T.SequentialTranspiler([T.RotationSetTranspiler(), TI.CNOT2RXRYXXTranspiler()]), "unitary", std),
+        ("Sequential[CZ2RZZZ,RotationSet,CNOTRZ2RZZ]", lambda: T.SequentialTranspiler([TQ.CZ2RZZZTranspiler(), T.RotationSetTranspiler(), TQ.CNOTRZ2RZZTranspiler()]), "unitary", std),
+        ("ParametricTranspiler∘IonQSet(bound)", None, "ionq", std),
+    ]
+
+    def shift(k):  # |x> -> |x+1 mod 2^k>
+        m = np.zeros((1 << k, 1 << k))
+        for x in range(1 << k):
+            m[(x + 1) % (1 << k), x] = 1
+        return m
+
+    def foreign(n):
+        kinds = ["UM3", "UM3", "UM3-shift", "U1q", "ZZ", "RZZ", "XX", "GPi", "GPi2"] + (["UM4"] if n >= 4 else [])
+        k = rng.choice(kinds)
+        if k == "UM3":
+            return k, gates.UnitaryMatrix(rng.sample(range(n), 3), dense.random_unitary(rng, 8).tolist())
+        if k == "UM3-shift":
+            return k, gates.UnitaryMatrix(rng.sample(range(n), 3), shift(3).tolist())
+        if k == "UM4":
+            return k, gates.UnitaryMatrix(rng.sample(range(n), 4), dense.random_unitary(rng, 16).tolist())
+        if k == "U1q":
+            return k, U1q(rng.randrange(n), rng.choice([math.pi, math.pi / 2]), rng.uniform(-3, 3))
+        if k in ("GPi", "GPi2"):
+            return k, (GPi if k == "GPi" else GPi2)(rng.randrange(n), rng.uniform(0, 1))
+        a, b = rng.sample(range(n), 2)
+        return k, ZZ(a, b) if k == "ZZ" else RZZ(a, b, rng.uniform(-3, 3)) if k == "RZZ" else XX(a, b, rng.uniform(-1.5, 1.5))
+
+    def offdiag(u, v):
+        dm = u @ v.conj().T
+        return float(np.max(np.abs(dm - np.diag(np.diag(dm)))))
+
+    for _ in range(ctx.n(220, 4000)):
+        name, make, rel, kinds = rng.choice(presets)
+        n = rng.randint(3, 4)
+        base = random_real_circuit(rng, n, rng.randint(1, 5), kinds)
+        gs = list(base.gates)
+        what = []
+        mode = rng.choice(["foreign", "foreign", "foreign", "measure", "both"])
+        if mode in ("foreign", "both"):
+            for _ in range(rng.randint(1, 2)):
+                k, g = foreign(n)
+                gs.insert(rng.randint(0, len(gs)), g)
+                what.append(k)
+        meas = []
+        if mode in ("measure", "both"):
+            meas = rng.sample(range(n), rng.randint(1, n))
+            what.append("Measurement")
+        c = QuantumCircuit(n, len(meas)) if meas else QuantumCircuit(n)
+        try:
+            for g in gs:
+                c.add_gate(g)
+            for i, q in enumerate(meas):
+                c.add_gate(gates.Measurement([q], [i]))
+        except Exception:  # noqa: BLE001 – the circuit itself is refused
+            continue
+        u_in = mixed_unitary(n, c.gates)
+        ctx.evaluations += 1
+        stat = "validate.unexpressible"
+        try:
+            if make is None:  # the preset wrapped for parametric circuits, applied to a circuit without parameters, then bound
+                import quri_parts.circuit as qc
+
+                pc = qc.ParametricQuantumCircuit(n, len(meas))
+                for g in c.gates:
+                    pc.add_gate(g)
+                out = T.ParametricTranspiler(TI.IonQSetTranspiler())(pc).bind_parameters([])
+            else:
+                out = make()(c)
+        except Exception as e:  # noqa: BLE001 – refusing is allowed
+            ctx.count(stat, f"{name}:raised:" + type(e).__name__)
+            continue
+        key = "transpile:" + name.split("[")[0].split("(")[0].split("∘")[0]
+        tag = f"{name} on a circuit containing {'+'.join(what)}"
+        try:
+            v = mixed_unitary(n, out.gates)
+        except KeyError as e:
+            ctx.count(stat, "oracle-unknown-gate")
+            continue
+        d = offdiag(u_in, v) if rel == "ionq" else dense.phase_dist(v, u_in)
+        tol = 1e-5 if rel == "ionq" else 1e-6
+        if not d <= tol:
+            ctx.count(stat, f"{name}:MISMATCH")
+            rel_txt = "U·V† is not diagonal (outcome statistics differ)" if rel == "ionq" else "output differs from input (up to phase)"
+            ctx.witness(key, f"{tag}: {rel_txt} by {d:.3g}, no error raised; output kinds {sorted({g.name for g in out.gates})}", describe_circ(c), {"dist": d})
+            continue
+        # measurements: all still there, each still the last operation on its qubit
+        m_in = sorted((tuple(g.target_indices), tuple(g.classical_indices)) for g in c.gates if g.name == "Measurement")
+        m_out = sorted((tuple(g.target_indices), tuple(g.classical_indices)) for g in out.gates if g.name == "Measurement")
+        late = False
+        seen_meas = set()
+        for g in out.gates:
+            qs_ = set(g.target_indices) | set(g.control_indices)
+            if g.name == "Measurement":
+                seen_meas |= qs_
+            elif qs_ & seen_meas:
+                late = True
+        if m_in != m_out or late:
+            ctx.count(stat, f"{name}:MEASUREMENT-CHANGED")
+            ctx.witness(key, f"{tag}: measurements {m_in} became {m_out}{' and are no longer terminal' if late else ''}, no error raised", describe_circ(c))
+            continue
+        ctx.count(stat, f"{name}:ok")
+    # pinned shape of the lesson: entangle, rotate, then a 3-qubit cyclic shift – through the IonQ preset
+    c = QuantumCircuit(3)
+    for g in (gates.H(0), gates.CNOT(0, 1), gates.RY(2, 0.7), gates.UnitaryMatrix([0, 1, 2], shift(3).tolist())):
+        c.add_gate(g)
+    ctx.evaluations += 1
+    try:
+        out = TI.IonQSetTranspiler()(c)
+        d = offdiag(mixed_unitary(3, c.gates), mixed_unitary(3, out.gates))
+        if not d <= 1e-5:
+            ctx.witness("transpile:IonQSetTranspiler", f"IonQSetTranspiler on [H, CNOT, RY, UnitaryMatrix(3 qubits)]: U·V† is not diagonal by {d:.3g} (output kinds "
+                        f"{sorted({g.name for g in out.gates})}), no error raised", describe_circ(c), {"dist": d})
+    except Exception as e:  # noqa: BLE001
+        ctx.count("validate.unexpressible", "pinned:raised:" + type(e).__name__)
 
 
 # ---- Quantinuum preset on general circuits -------------------------------------------------------------------------------------
@@ -2010,6 +2168,7 @@ def validate_extra(ctx):
         ("parametric", lambda: parametric_validate(ctx, mod("quri_parts.circuit.transpile"))),
         ("parametric-reject", lambda: parametric_reject_validate(ctx, mod("quri_parts.circuit.transpile"))),
         ("ionq", lambda: ionq_extra_validate(ctx, mod("quri_parts.ionq.circuit.transpile"))),
+        ("unexpressible", lambda: preset_unexpressible_validate(ctx)),
         ("quantinuum", lambda: quantinuum_general_validate(ctx, mod("quri_parts.quantinuum.circuit.transpile"))),
         ("large-pauli", lambda: large_pauli_validate(ctx, mod("quri_parts.circuit.transpile"))),
         ("eps-probe", lambda: epsilon_probes(ctx)),
